@@ -168,22 +168,31 @@ theorem expansion_value (R : MpfT → Nat) (f : Fmt) (prec : Nat) (hew : 2 ≤ f
       expansion2mpf f prec ws = .ok (canonI X f.emin) :=
   expansion_spec R f prec hew hp hprec hR X hX hbits functional fuel hfuel
 
-/-- `mpf2expansion(±inf) = [±inf]` and `expansion2mpf` maps it back. -/
+/-- `mpf2expansion(±inf) = [±inf]`. -/
 theorem expansion_inf (f : Fmt) (prec : Nat) (fuel : Nat) :
     mpf2expansion f prec finf none false fuel = .ok [f.infBits] ∧
     mpf2expansion f prec fninf none false fuel = .ok [f.signBit + f.infBits] := by
   constructor <;> simp [mpf2expansion, mpf2expansionG, MpfT.isInf, mpf2floatC, MpfT.isFinite, MpfT.isNaN, finf, fninf, fnan]
 
-/- Full statement (FALSE of the code as written): `mpf2expansion(dtype, nan)` returns `[nan]`.
-   With `length=None` the loop never ends: `y = nan` is neither inf nor `== 0`, and `x - nan = nan`. -/
+/-- **expansion_nan** (full strength since the repair 81efdaa in /repo): for every format, precision and
+iteration budget (even none), `mpf2expansion(dtype, nan)` is the one-word list `[nan]` (canonical quiet NaN,
+which is a NaN) and `expansion2mpf` maps it back to `nan`: NaN maps to itself through expansions. -/
+theorem expansion_nan (f : Fmt) (prec : Nat) (hew : 1 ≤ f.ew) (hp : 2 ≤ f.p) (fuel : Nat) (functional : Bool) :
+    mpf2expansion f prec fnan none functional fuel = .ok [nanBits f] ∧ isNaNb f (nanBits f) = true ∧
+    expansion2mpf f prec [nanBits f] = .ok fnan := by
+  have hnan := nanBits_isNaN f hew hp
+  have hr := mpf_roundtrip_nan' f (nanBits f) prec hnan
+  refine ⟨?_, hnan, ?_⟩
+  · have h1 : fnan.isInf = false := by decide
+    have h2 : fnan.isNaN = true := by decide
+    simp only [mpf2expansion, mpf2expansionG, h1, h2, Bool.false_or, if_true, hr.2]
+  · rw [e2m_single]; exact hr.1
 
-/-- **expansion_nan_diverges** (negation witness, for EVERY format, precision and number of iterations):
-the `while True` loop of `mpf2expansion(dtype, nan)` never exits. -/
-theorem expansion_nan_witness (f : Fmt) (prec : Nat) (hew : 2 ≤ f.ew) (hp : 2 ≤ f.p) (fuel : Nat) (functional : Bool) :
-    mpf2expansion f prec fnan none functional fuel = .error .nonTermination := by
-  have h := expansionLoop_nan f prec hew hp fuel []
-  simp [mpf2expansion, mpf2expansionG, MpfT.isInf, fnan, finf, fninf] at h ⊢
-  exact h
+/-- Regression witness for the defect repaired by 81efdaa (the NaN used to enter the `while True` loop):
+on NaN that loop never exits — for EVERY format, precision and number of iterations. -/
+theorem expansion_nan_old_loop_regression (f : Fmt) (prec : Nat) (hew : 2 ≤ f.ew) (hp : 2 ≤ f.p) (fuel : Nat) (acc : List Nat) :
+    expansionLoopG (mpf2floatC f) f prec none fuel fnan acc = .error .nonTermination :=
+  expansionLoop_nan f prec hew hp fuel acc
 
 /-- `RSpec` is satisfiable in every format: rounding toward zero (`truncR`, keep the `p` leading bits)
 meets it, so `expansion_value` is not vacuous.  (That the real `mpf2float` meets it is C15's theorem;
